@@ -12,6 +12,8 @@ fi
 cd "$WT" || exit 2
 git checkout -q --detach "$(git -C /repo rev-parse HEAD)" 2>/dev/null
 for X in A B; do Y=$X; [ -n "${ROUND2:-}" ] && { [ $X = A ] && Y=C || Y=D; }
+  [ "${ROUND:-}" = 3 ] && { [ $X = A ] && Y=E || Y=F; }
+  [ "${ROUND:-}" = 4 ] && { [ $X = A ] && Y=G || Y=H; }
   D="$SRC/out/$X"; [ -f "$D/patch.diff" ] || continue
   OUT=/verif/seeded/$ID-$Y; LOG=$(mktemp)
   git checkout -q -- . ; rm -f tests/demo.rs
